@@ -481,6 +481,9 @@ def bit_laws(facts, res):
             pts = sorted(set([0, 1, (1 << (wd - 1)), (1 << wd) - 1]))
             cands = [[list(c)] for c in itertools.product(pts, repeat=dim)]
             it, out = run_fn(fn, consts, opaque, cls, lambda: [[Bits.input("x%d" % d, wd) for d in range(dim)]], cands, key, "the coordinate -> index conversion")
+            for (un_, um_) in getattr(it, "ub_events", [])[:1]:
+                res.violation(R, tbf.rel(facts.path_of(un_)), fn["qname"], key + ":signed-shift", un_["l"][1],
+                              "%s: for coordinates that use all %d bits of the deepest level (index of 63 bits) %s - undefined behaviour (signed overflow) even though the shifted-out value is not used afterwards; shift an unsigned register" % (key, wd, um_))
             if hil:
                 calls = [c for c in it.opaque_calls if c[0] == "Morton2Hilbert"]
                 if not calls:
